@@ -4,7 +4,7 @@ set -e
 D=$(mktemp -d /tmp/pyvc-mut.XXXX)
 mkdir -p $D/pulser-core $D/pulser-simulation
 cp -r /repo/pulser-core/pulser $D/pulser-core/
-cp -r /repo/pulser-simulation/pulser_simulation $D/pulser-simulation/
+cp -r /repo/pulser-simulation/pulser_simulation $D/pulser-simulation/; cp /repo/VERSION.txt $D/ 2>/dev/null
 python3 - "$D/$1" "$2" "$3" <<'PY'
 import sys
 p,old,new=sys.argv[1:4]
